@@ -1088,6 +1088,7 @@ class Evaluator:
         if isinstance(it, Term) and it.head == 'range' and len(it.args) == 4:
             lo, hi, step, cnt = it.args
             ctx.kind, ctx.lo, ctx.hi = 'range', C(0), cnt.r
+            ctx.stepped = True          # the loop symbol counts iterations; the loop variable is lo + step * counter
             elem = Num(lo.r + step.r * lsym)
         elif isinstance(it, Term) and it.head == 'range':
             lo, hi = it.args
